@@ -83,7 +83,11 @@ MCPatternsOf(sd) ==
                                y \in {UAlt(UCat(NWStar, UCat(ULit(SUA), NWStar)), NWPlus), UAlt(NWPlus, UCat(NWStar, ULit(SUA))),
                                       UAlt(UCat(URep(ULit(SSP), 0, Inf, TRUE), ULit(SDOT)), URep(ULit(SSP), 1, Inf, TRUE)),
                                       UAlt(UCat(NWStar, ULit(SUA)), UAlt(ULit(SDOT), NWPlus)),
-                                      UAlt(UCat(ULit(SUA), ULit(SDOT)), URep(UDot, 0, Inf, TRUE))}}
+                                      UAlt(UCat(ULit(SUA), ULit(SDOT)), URep(UDot, 0, Inf, TRUE)),
+                                      \* an optional group "unbounded part, then a literal" as a direct branch:  \ba((?:\w+A)?|\.)b
+                                      UAlt(URep(UCat(WPlus, ULit(SUA)), 0, 1, TRUE), ULit(SDOT)),
+                                      UAlt(ULit(SDOT), URep(UCat(WPlus, ULit(SUA)), 0, 1, TRUE)),
+                                      UAlt(URep(UCat(NWPlus, ULit(SUA)), 0, Inf, TRUE), ULit(SDOT))}}
     \* byte-mode classes ((?-u:...)): the dot and negated classes range over every byte, the terminator among them
     [] sd.fam = "nou" -> {[sd EXCEPT !.pats = <<UNoU(x)>>] :
                             x \in {UCat(ULit(SA), UCat(UDot, ULit(SB))), UCls({SA}, TRUE), UCat(ULit(SA), UCls({SB}, TRUE)), UWCls(TRUE),
